@@ -488,11 +488,14 @@ def install(ip: Interp, gdim=None, tdim=None):
             return m_rel({_ast.Lt: "<", _ast.Gt: ">", _ast.LtE: "<=", _ast.GtE: ">="}[op])(a, b)
         if isinstance(a, (T, MI, Cnd)) and isinstance(b, (T, MI, Cnd)) and op in (_ast.Eq, _ast.NotEq):
             return struct_eq(a, b) == (op is _ast.Eq)
-        if isinstance(a, T) and a.shape == () and not a.fi and isinstance(b, (int, Fraction)) and op in (_ast.Eq, _ast.NotEq):
+        if isinstance(b, T) and isinstance(a, (int, Fraction)) and not isinstance(a, bool) and op in (_ast.Eq, _ast.NotEq):
+            a, b = b, a
+        if isinstance(a, T) and isinstance(b, (int, Fraction)) and not isinstance(b, bool) and op in (_ast.Eq, _ast.NotEq):
             # `expr == 0` style checks (Expr.__eq__ with a python scalar): literal comparison
-            e = a.get()
-            if e.op == "c":
-                return (e.args[0] == b) == (op is _ast.Eq)
+            if a.shape == () and not a.fi:
+                e = a.get()
+                if e.op == "c":
+                    return (e.args[0] == b) == (op is _ast.Eq)
             return op is _ast.NotEq
         return prev_cmp(op, a, b, node_)
 
